@@ -217,6 +217,23 @@ def ref_dropped_volatile(p, sigma, delta):
                                 lambda x: any(delta(y) for y in e_vars(mp[x])) if x in mp else delta(x))
 
 
+def ref_negative_chain(p, sigma, delta, above=False):
+    """is a volatile repetition with a negative raw count nested inside another such repetition?"""
+    k = p[0]
+    if k == 'atom':
+        return False
+    if k == 'seq':
+        return any(ref_negative_chain(q, sigma, delta, above) for q in p[1])
+    if k == 'rep':
+        neg = e_eval(p[1], sigma) < 0 and any(delta(x) for x in e_vars(p[1]))
+        if neg and above:
+            return True
+        return ref_negative_chain(p[3], sigma, delta, above or neg)
+    mp = dict((n, e) for n, e in p[1])
+    return ref_negative_chain(p[2], lambda x: e_eval(mp[x], sigma) if x in mp else sigma(x),
+                              lambda x: any(delta(y) for y in e_vars(mp[x])) if x in mp else delta(x), above)
+
+
 def env_fn(vals):
     def f(x):
         if x not in vals:
@@ -252,7 +269,7 @@ def gen_updates(rng, vals, V, malformed=False):
         for _ in range(rng.choice([1, 1, 2])):
             if not names:
                 break
-            us[rng.choice(names)] = rng.choice([0, 1, 1, 2, 2, 3, 3, 4, -1] if rng.random() < 0.25 else [1, 2, 3, 4])
+            us[rng.choice(names)] = rng.choice([0, 1, 1, 2, 3, 4, -1, -1, -2] if rng.random() < 0.25 else [1, 2, 3, 4])
         if malformed and rng.random() < 0.6:
             nv = sorted(set(vals) - V)
             us[rng.choice(nv) if nv and rng.random() < 0.7 else 'z'] = rng.choice([1, 2, 3])
@@ -260,10 +277,35 @@ def gen_updates(rng, vals, V, malformed=False):
     return ups
 
 
+def gen_tabor_shaped(rng, names):
+    """sequence of repeated blocks whose entries are atoms / repeated atoms: lands in advanced sequence mode with
+    volatile counts on both table levels, identical blocks (shared sequencer tables) on purpose"""
+    import copy
+    blocks = []
+    for _ in range(rng.choice([1, 2, 2, 3, 3, 4])):
+        if blocks and rng.random() < 0.35:
+            blk = copy.deepcopy(rng.choice(blocks))
+            fr = sorted(pt_free(blk))
+            if fr and rng.random() < 0.5:
+                blk = ['map', [[rng.choice(fr), rng.choice([C_(1), C_(2), C_(3), V_(rng.choice(names))])]], blk]
+        else:
+            entries = []
+            for _ in range(rng.choice([1, 2, 2, 3])):
+                a = ['atom', rng.randrange(N_ATOMS)]
+                entries.append(['rep', expr_pool(rng, names), False, a] if rng.random() < 0.5 else a)
+            body = ['seq', entries] if len(entries) > 1 else entries[0]
+            blk = ['rep', expr_pool(rng, names) if rng.random() < 0.7 else C_(rng.choice([1, 2, 3])), False, body]
+        blocks.append(blk)
+    return ['seq', blocks] if len(blocks) > 1 else blocks[0]
+
+
 def gen_one(rng, kind, depth):
     for _ in range(200):
         names = rng.sample(NAMES[:5], rng.choice([2, 3, 3, 4]))
-        p = gen_pt(rng, depth, names)
+        if kind == 'tabor' and rng.random() < 0.55:
+            p = gen_tabor_shaped(rng, names)
+        else:
+            p = gen_pt(rng, depth, names)
         if p[0] == 'atom':
             continue
         free = sorted(pt_free(p))
@@ -397,8 +439,16 @@ def _install_probes():
         fset = prop.fset
 
         def probe_set(self, val):
+            caller = sys._getframe(1).f_code.co_name
             if isinstance(self._repetition_definition, VolatileRepetitionCount):
-                EVENTS.append('int_setter_on_volatile:' + sys._getframe(1).f_code.co_name)
+                EVENTS.append('int_setter_on_volatile:' + caller)
+            if caller == 'prepare_program_for_advanced_sequence_mode' and self.parent is not None:
+                # a neighbour's iteration is moved into an adjacent table: is that table volatile (current count 1)?
+                idx = self.parent_index
+                for j in (idx - 1, idx + 1):
+                    if 0 <= j < len(self.parent) and \
+                            isinstance(self.parent[j]._repetition_definition, VolatileRepetitionCount):
+                        EVENTS.append('neighbour_unroll_into_volatile_one')
             return fset(self, val)
         Loop.repetition_count = property(prop.fget, probe_set, prop.fdel, prop.__doc__)
         orig = tabor._check_merge_with_next
@@ -524,8 +574,8 @@ def _tabor_pipeline(case, vals):
             if case['cl']:
                 prog.cleanup()
             if isinstance(prog.repetition_definition, VolatileRepetitionCount) and prog.repetition_count == 1 \
-                    and prog.depth() == 1 and case['mode'] != 'advanced':
-                EVENTS.append('single_mode_root_volatile')
+                    and prog.depth() >= 1:
+                EVENTS.append('root_volatile_count_one')
             tp = _compile(prog, case['mode'], case['mn'], case['mx'])
         except _expected():
             return {'err': True}, None
@@ -704,10 +754,22 @@ def classify(case, obs):
             return 'C15-zero-count-dropped'
     except KeyError:
         pass
+    if case['kind'] == 'tabor' or case.get('pl') != 'none':
+        for us in case['ups']:
+            for k2, v in us.items():
+                if k2 in cur:
+                    cur[k2] = v
+            try:
+                if ref_negative_chain(case['pt'], env_fn(cur), lambda x: x in V):
+                    return 'C15-merged-negative-product'
+            except KeyError:
+                pass
     if case['kind'] == 'tabor':
         ev = obs.get('events', [])
-        if 'single_mode_root_volatile' in ev:
-            return 'C15-tabor-single-mode-root-volatile'
+        if 'root_volatile_count_one' in ev:
+            return 'C15-tabor-root-volatile-one'
+        if 'neighbour_unroll_into_volatile_one' in ev:
+            return 'C15-tabor-extend-volatile-one'
         if 'merge_with_next_volatile' in ev:
             return 'C15-tabor-merge-volatile-one'
         if 'int_setter_on_volatile:prepare_program_for_advanced_sequence_mode' in ev:
